@@ -351,3 +351,77 @@ def run_endpoint_null(chk, F, rid="R-ENDPTNULL"):
                    "%s:%s" % (fn["file"], site.get("l")))
     if n < 2:
         raise AnalysisBroken("only %d dereferences of edge endpoints found outside the writer" % n)
+
+
+# ---------------------------------------------------------------------------------------------- R-TADEF / R-LINEUID
+def run_tadef(chk, F, rid="R-TADEF"):
+    """Last clause of C08: after a clean parse every timed-automaton template has an initial location.  A `dynamic T(..);`
+    declaration creates a TA template whose body is expected later; found by a defect-hunt sub-agent: nothing reported a
+    template that stayed declared-only (`dynamic T(); system T;`), and an <lsc> chart of the same name `defined` it."""
+    from ..inline import sites_with_conditions, strip
+    chk.rule(rid, "a template created by a dynamic declaration (is_defined false) is reported at the end of the parse "
+                  "unless a definition arrived: DocumentBuilder::done tests is_defined of every dynamic template and "
+                  "reports; is_defined is set only where the definition is a timed automaton (isTA)")
+    done = F.resolve_method("UTAP::DocumentBuilder", "done")
+    if done is None or done.get("body") is None:
+        raise AnalysisBroken("DocumentBuilder::done not found")
+    ok = False
+    for n in walk(done["body"]):
+        if n.get("k") in ("rangefor", "for") and any(c.get("name") == "get_dynamic_templates" for c in calls(n)):
+            for i in walk(n):
+                if i.get("k") == "if" and any(x.get("k") == "member" and x.get("name") == "is_defined" for x in walk(i["c"])) and \
+                        any(c.get("name") in ("add_error", "handle_error", "handleError") for c in calls(i["then"])):
+                    ok = True
+    chk.ob(rid, "done|undefined dynamic template", ok,
+           "DocumentBuilder::done does not report the dynamic templates that were declared but never defined: "
+           "`dynamic T(); system T;` is accepted and leaves a timed-automaton template without locations and with a null "
+           "init symbol", "%s:%s" % (done["file"], done["line"]))
+    pb = F.resolve_method("UTAP::DocumentBuilder", "proc_begin")
+    if pb is None or pb.get("body") is None:
+        raise AnalysisBroken("DocumentBuilder::proc_begin not found")
+
+    def is_set(x):
+        if x.get("k") == "bin" and x.get("op") == "=":
+            l = strip(x["lhs"])
+            return isinstance(l, dict) and l.get("k") == "member" and l.get("name") == "is_defined"
+        return False
+    sites = list(sites_with_conditions(pb["body"], is_set))
+    if not sites:
+        raise AnalysisBroken("proc_begin does not set is_defined")
+    # the template the flag is set on comes from find_dynamic_template: either that lookup or the path is conditional on isTA
+    for site, conds in sites:
+        on_ta = any(any(x.get("k") == "ref" and x.get("name") == "isTA" for x in walk(c)) and t for c, t in conds)
+        for n in walk(pb["body"]):
+            if n.get("k") == "cond" and any(c.get("name") == "find_dynamic_template" for c in calls(n.get("a") or {})) and \
+                    any(x.get("k") == "ref" and x.get("name") == "isTA" for x in walk(n["c"])):
+                on_ta = True
+            if n.get("k") == "if" and any(x.get("k") == "ref" and x.get("name") == "isTA" for x in walk(n["c"])) and \
+                    any(c.get("name") == "find_dynamic_template" for c in calls(n["then"])):
+                on_ta = True
+        chk.ob(rid, "proc_begin|is_defined only for a timed automaton", on_ta,
+               "DocumentBuilder::proc_begin marks the template of a dynamic declaration as defined for every definition of "
+               "that name, timed automaton or not: an <lsc> chart named like the dynamic template is merged into it and the "
+               "template counts as defined without having a location", "%s:%s" % (pb["file"], site.get("l")))
+
+
+def run_lineuid(chk, F, rid="R-LINEUID"):
+    """instance_t: `i.uid.get_data() == &i`.  An instance line is created first (proc_instance_line) and named later; the
+    callback for the form with arguments named it on the success path only (E08-2)."""
+    from ..inline import sites_with_conditions, strip
+    chk.rule(rid, "DocumentBuilder::instance_name_end gives the current instance line its symbol on every path: a call of "
+                  "instance_name that is conditional at most on the line existing and not having a symbol yet")
+    fn = F.resolve_method("UTAP::DocumentBuilder", "instance_name_end")
+    if fn is None or fn.get("body") is None:
+        raise AnalysisBroken("DocumentBuilder::instance_name_end not found")
+    sites = list(sites_with_conditions(fn["body"], lambda x: x.get("k") == "call" and x.get("name") == "instance_name"))
+    if not sites:
+        raise AnalysisBroken("instance_name_end does not call instance_name")
+
+    def benign(c):
+        names = {x.get("name") for x in walk(c) if x.get("k") in ("ref", "member")}
+        return bool(names) and names <= {"currentInstanceLine", "uid", "currentTemplate"} | {None}
+    ok = any(all(benign(c) for c, t in conds) for site, conds in sites)
+    chk.ob(rid, "instance_name_end", ok,
+           "DocumentBuilder::instance_name_end names the instance line only on the path on which the name is a template with "
+           "the right number of arguments: on the others the line stays in template_t::instances with a null uid "
+           "(`<instance><name>X(1)</name></instance>` without a template X, silently)", "%s:%s" % (fn["file"], fn["line"]))
